@@ -350,6 +350,7 @@ fn boxed_ops(op: &str, a: &[&str]) -> Option<String> {
 
 // ------------------------------------------------------------------ hooks (crate-internal functions)
 
+#[cfg(crypto_bigint_verif)]
 mod hook {
     use crate::util::*;
     use crypto_bigint::modular::{BoxedMontyForm, BoxedMontyParams, MontyForm, MontyParams};
@@ -447,6 +448,11 @@ mod hook {
     }
 }
 
+#[cfg(not(crypto_bigint_verif))]
+fn hook_dispatch(_name: &str, _a: &[&str]) -> Option<String> {
+    Some(crate::util::HOOK_UNAVAILABLE.to_string())
+}
+#[cfg(crypto_bigint_verif)]
 fn hook_dispatch(name: &str, a: &[&str]) -> Option<String> {
     let unsupported = Some("unsupported-width".to_string());
     match name {
